@@ -18,9 +18,9 @@ import (
 	"github.com/Comcast/sheens/tools"
 	"github.com/jsccast/yaml"
 	"pgregory.net/rapid"
-	"verif/internal/ev"
-	"verif/internal/jsongen"
-	"verif/internal/sm"
+	"verif/lib/ev"
+	"verif/lib/jsongen"
+	"verif/lib/sm"
 )
 
 // ---------------------------------------------------------------- C13
